@@ -1278,6 +1278,42 @@ def oracle_failed_delete_no_creation(r):
     return None
 
 
+def oracle_no_command_through_link(r):
+    """C02/C12 on the boss's side, independent of the model: replay the implementation's destination trace on the scripted
+    destination (root details + listing); no mutating command may name a path that has a proper ancestor (the root included)
+    which at that moment is a symlink, and no file may be written onto a path that is a symlink: the kernel would follow it"""
+    sc, d = r['sc'], r['impl_r'].get('dest', [])
+    if sc.dry:
+        return None
+    state = dict(effective_dest_listing(sc))
+    sk = sc.src_reply[1] if sc.src_reply[0] == 'R' else None
+    slash = sc.dest_root.endswith('/') or sc.dest_root.endswith('\\')
+    eff = sc.dest_reply2 if (sk and sk != 'D' and slash) else sc.dest_reply
+    if eff[0] == 'R' and eff[1]:
+        state[''] = eff[1]
+    for c in d:
+        n = cmd_name(c)
+        if not is_mutating(c) or n == 'CreateRootAncestors':
+            continue
+        p = cmd_path(c)
+        parts = p.split('/') if p else []
+        for i in range(len(parts)):
+            q = '/'.join(parts[:i])
+            if state.get(q, '').startswith('L:'):
+                return f'{n}({p!r}) is sent while {q!r} is a destination symlink: it acts through the link'
+        if n == 'CreateOrUpdateFile' and state.get(p, '').startswith('L:'):
+            return f'CreateOrUpdateFile({p!r}) is sent while that path is a destination symlink: the write goes through the link'
+        if n.startswith('Delete'):
+            state.pop(p, None)
+        elif n == 'CreateFolder':
+            state[p] = 'D'
+        elif n == 'CreateSymlink':
+            state[p] = 'L:new'
+        elif n == 'CreateOrUpdateFile':
+            state[p] = 'F:new'
+    return None
+
+
 def gen_mixed(rng, n, faults=True):
     return [l2.gen_scenario(rng, faults=faults) for _ in range(n)]
 
@@ -1304,7 +1340,8 @@ def check_C02(run):
         sc_.beh, sc_.answers, sc_.dry = 'ooooo', '', False
         sc_.err_at_cmd = rng.randint(0, 4)
         scs.append(sc_)
-    l2_stream(run, scs, [('source-read-only', oracle_src_readonly), ('ancestors', oracle_ancestors), ('failed-delete-no-creation', oracle_failed_delete_no_creation)], 'boss-traces',
+    l2_stream(run, scs, [('source-read-only', oracle_src_readonly), ('ancestors', oracle_ancestors), ('failed-delete-no-creation', oracle_failed_delete_no_creation),
+                         ('no-command-through-link', oracle_no_command_through_link)], 'boss-traces',
               nontrivial=lambda r: any(is_mutating(c) for c in r['impl_r'].get('dest', [])) or r['impl_r'].get('res', '').startswith('err'),
               focus_gen=lambda: gen_mixed(rng, 5000))
     # ---- L4 with decoys
@@ -1341,6 +1378,14 @@ def check_C02(run):
         base, src, dst, out = build('rootgate')
         l3.make_tree(src, [('', 'F', b'new root file', 2 * 10**18)]); l3.make_tree(dst, [('', 'L', 'outside/file.txt')])
         cases.append(('root-symlink-entry-skip', base, src, dst, out, ['--dest-root-needs-deleting', 'delete', '--dest-entry-needs-deleting', 'skip'], None, 'noslash'))
+        # a folder source onto a root that is a symlink to a populated outside folder, root deletion granted, entry deletion refused
+        for vi, (sv, answers) in enumerate([(['--dest-root-needs-deleting', 'delete', '--dest-entry-needs-deleting', 'skip'], None),
+                                            (['--dest-root-needs-deleting', 'prompt', '--dest-entry-needs-deleting', 'prompt'], '1:.*root.*:Delete,1:.*:Skip \\(all occurences\\)'),
+                                            (['--dest-root-needs-deleting', 'delete', '--all-destructive-behaviour', 'skip'], None)]):
+            base, src, dst, out = build(f'rootlinkdir{vi}')
+            l3.make_tree(src, [('', 'D'), ('precious.txt', 'F', b'overwritten?', 2 * 10**18), ('n', 'F', b'new', 2 * 10**18), ('sub', 'D'), ('sub/b', 'F', b'b', 2 * 10**18), ('lnk', 'L', 'n')])
+            l3.make_tree(dst, [('', 'L', 'outside/dir')])
+            cases.append(('root-symlink-folder-source-entry-skip', base, src, dst, out, sv, None, 'noslash' if answers is None else ('noslash', answers)))
         for vi in range(2 if not thorough else 8):
             base, src, dst, out = build(f'faildel{vi}')
             l3.make_tree(src, [('', 'D'), ('d', 'D'), ('d/f', 'F', b'new', 2 * 10**18), ('d/g', 'F', b'new2', 2 * 10**18), ('d/precious.txt', 'F', b'overwritten?', 2 * 10**18), ('e', 'F', b'e', 2 * 10**18)])
@@ -1350,7 +1395,10 @@ def check_C02(run):
         for kind, base, src, dst, out, args, pre, spelling in cases:
             finding = None
             before = {k: l3.snapshot(p) for k, p in (('src', src), ('outside', out))}
-            env = sb.env({'RJRSSYNC_TEST_PROMPT_RESPONSE': '1:.*:Skip \\(all occurences\\)'} if args[-1] == 'prompt' else {})
+            answers = None
+            if isinstance(spelling, tuple):
+                spelling, answers = spelling
+            env = sb.env({'RJRSSYNC_TEST_PROMPT_RESPONSE': answers or '1:.*:Skip \\(all occurences\\)'} if args[-1] == 'prompt' else {})
             r = l4.run_cli(([src, dst] if spelling == 'noslash' else [src + '/', dst + '/']) + args, env=env, timeout=60, preexec=pre)
             after = {k: l3.snapshot(p) for k, p in (('src', src), ('outside', out))}
             changed = [k for k in before if before[k] != after[k]]
